@@ -12,7 +12,7 @@
   correspondence of lib/c07.py.  Property theorems only; helper lemmas are in Proofs/Tx*.lean.
 -/
 import FerrousSpec.Proofs.TxExec
-import FerrousSpec.Gen.Tx
+import FerrousSpec.Proofs.TxSource
 set_option linter.unusedSimpArgs false
 set_option linter.unusedVariables false
 namespace Ferrous.C07
@@ -179,19 +179,18 @@ theorem exec_eq_back_to_back (q : Quirks) (hq : q.selectInExecIgnored = false) (
     ∃ slots, (exec q s cid r).2 = .exec slots ∧ trace q twin direct = slots.map fun o => some (.one o) :=
   exec_eq_back_to_back_general q s twin cid r hin hw ha hQ (Or.inl hq) hts hte htc
 
-/-- The code as it is: the same, for queues that contain no SELECT either. -/
-theorem exec_eq_back_to_back_partial (s twin : Server) (cid : Nat) (r : Req)
+/-- The code as it is (any setting of the switches): the same, for queues that contain no SELECT either. -/
+theorem exec_eq_back_to_back_partial (q : Quirks) (s twin : Server) (cid : Nat) (r : Req)
     (hin : (s.conns cid).inTx = true) (hw : r.watchOk = true) (ha : (s.conns cid).aborted = false)
-    (hQ : ∀ c ∈ (s.conns cid).queue, queueable Quirks.code c = true ∧ isBlockingName (nameOf c) = false)
+    (hQ : ∀ c ∈ (s.conns cid).queue, queueable q c = true ∧ isBlockingName (nameOf c) = false)
     (hnosel : ∀ c ∈ (s.conns cid).queue, nameOf c ≠ "SELECT")
     (hts : twin.store = s.store) (hte : twin.ext = s.ext) (htc : twin.conns cid = { db := (s.conns cid).db }) :
     let direct := framesOf cid r.now (s.conns cid).queue
-    (exec Quirks.code s cid r).1.store = (run Quirks.code twin direct).store ∧
-    (exec Quirks.code s cid r).1.ext = (run Quirks.code twin direct).ext ∧
-    (exec Quirks.code s cid r).1.conns cid = (run Quirks.code twin direct).conns cid ∧
-    ∃ slots, (exec Quirks.code s cid r).2 = .exec slots ∧
-      trace Quirks.code twin direct = slots.map fun o => some (.one o) :=
-  exec_eq_back_to_back_general Quirks.code s twin cid r hin hw ha hQ (Or.inr hnosel) hts hte htc
+    (exec q s cid r).1.store = (run q twin direct).store ∧
+    (exec q s cid r).1.ext = (run q twin direct).ext ∧
+    (exec q s cid r).1.conns cid = (run q twin direct).conns cid ∧
+    ∃ slots, (exec q s cid r).2 = .exec slots ∧ trace q twin direct = slots.map fun o => some (.one o) :=
+  exec_eq_back_to_back_general q s twin cid r hin hw ha hQ (Or.inr hnosel) hts hte htc
 
 example : (∀ c ∈ (sQueued.conns 1).queue, queueable Quirks.code c = true ∧ isBlockingName (nameOf c) = false) ∧
     (∀ c ∈ (sQueued.conns 1).queue, nameOf c ≠ "SELECT") := by decide
@@ -641,26 +640,31 @@ theorem select_in_exec_selects_fails :
     (runOne Quirks.code false 1 ⟨KS.emptyStore, 0, []⟩ 0 (cSELECT [49])).1.db = 1 :=
   ⟨by decide, by decide, by decide, rfl, by decide⟩
 
-/-! ## 11. The model's tables are the source's (regenerated by translator/tx_facts.py on every run) -/
+/-! ## 11. The model's tables are the source's (regenerated by translator/tx_facts.py on every run)
 
-/-- the names handled in `process_frame` before the queue test, in source order -/
-theorem preQueue_table_matches_source : preQueueNames = Gen.preQueue := by decide
+These are stated so that they hold for the tree as found AND after each of the proposed fixes
+(pending_repo_patches/C07_*.diff), and stop checking when the source acquires a deviation the model
+does not have: a new name handled before the queue test, a control command that gets queued, a
+thread hand-off in EXEC, a path that sets `aborted`, validation at queue time. -/
 
-/-- `should_queue_command` refuses exactly the control commands … -/
+/-- `should_queue_command` refuses exactly the control commands of the model -/
 theorem passThrough_table_matches_source : controlNames = Gen.txPassThrough := by decide
 
-/-- … all of which are handled before the queue test anyway (the test is redundant, not wrong), and
-    what is handled before the test is exactly control ∪ hand-over names. -/
-theorem preQueue_is_control_and_external :
-    (∀ n ∈ Gen.txPassThrough, n ∈ Gen.preQueue) ∧
-    (∀ n ∈ Gen.preQueue, n ∈ controlNames ∨ n ∈ externalNames) ∧
-    (∀ n ∈ controlNames ++ externalNames, n ∈ Gen.preQueue) := by decide
+/-- what `process_frame` handles before the queue test is the model's list (tree as found), or
+    nothing at all (the queue test comes first: fix C07_3) -/
+theorem preQueue_table_matches_source : Gen.preQueue = preQueueNames ∨ Gen.preQueue = [] := by decide
 
-/-- the switches of `Quirks.code` are what the source says today -/
-theorem code_quirks_match_source :
-    Quirks.code.immediate = Gen.preQueue.filter (fun n => !Gen.txPassThrough.contains n) ∧
-    Quirks.code.selectInExecIgnored = Gen.execSelectIgnored ∧
-    Quirks.code.blockingInExecNoResponse = Gen.blockingInExecUnguarded := by decide
+/-- and it never contains a name the model does not treat as control or hand-over -/
+theorem preQueue_is_control_or_external :
+    ∀ n ∈ Gen.preQueue, n ∈ controlNames ∨ n ∈ externalNames := by decide
+
+/-- The variant the driver runs against the server (`Quirks.ofSource`, switches read off the source)
+    lies between the prescribed behaviour and the tree as found: nothing is executed immediately
+    that `Quirks.code` does not execute immediately, and no switch is on that is off there. -/
+theorem source_variant_within_tree_as_found :
+    (∀ n ∈ Quirks.ofSource.immediate, n ∈ Quirks.code.immediate) ∧
+    (Quirks.ofSource.selectInExecIgnored = true → Quirks.code.selectInExecIgnored = true) ∧
+    (Quirks.ofSource.blockingInExecNoResponse = true → Quirks.code.blockingInExecNoResponse = true) := by decide
 
 /-- single command thread: `Server::run` → `process_connections` → `process_connection` →
     `process_frame` → `handle_exec`'s loop, with no thread spawn / channel / async hand-off (coarse
